@@ -54,14 +54,14 @@ fn collect_tagged_keys(
                             .to_string();
                         // tags nested below this key come first: the issuer needs enclosed
                         // claims before the claims that enclose them
-                        path.push_back(key_str.clone());
+                        path.push_back(escape_segment(&key_str));
                         collect_tagged_keys(&mut value, path, paths)?;
                         path.pop_back();
-                        paths.push(build_full_path(path, &key_str));
+                        paths.push(build_full_path(path, &escape_segment(&key_str)));
                         untagged.insert(YamlValue::String(key_str), value);
                     }
                     YamlValue::String(key_str) => {
-                        path.push_back(key_str.clone());
+                        path.push_back(escape_segment(&key_str));
                         collect_tagged_keys(&mut value, path, paths)?;
                         path.pop_back();
                         untagged.insert(YamlValue::String(key_str), value);
@@ -110,6 +110,11 @@ fn collect_tagged_keys(
     }
 
     Ok(())
+}
+
+// a reported path is a JSON pointer (RFC 6901): '~' and '/' inside a key are escaped
+fn escape_segment(key: &str) -> String {
+    key.replace('~', "~0").replace('/', "~1")
 }
 
 fn build_full_path(path: &VecDeque<String>, additional_segment: &str) -> String {
